@@ -27,6 +27,13 @@
 #define V_R_OK(p, n) __CPROVER_r_ok((p), (n))
 #endif
 
+/* a stack object whose padding must be defined in the native build */
+#ifdef V_REPLAY
+#define V_ZERO(x) memset(&(x), 0, sizeof(x))
+#else
+#define V_ZERO(x) do { } while (0)
+#endif
+
 /* type invariant of a _Bool read from the nondeterministic input record */
 #define V_BOOL_OK(lv) (*(const uint8_t *)&(lv) <= 1)
 
